@@ -741,6 +741,7 @@ where
             SessionEvent::Data(data) => {
                 if let Some(Peer::Connected {
                     nid,
+                    link,
                     inbox,
                     streams,
                     ..
@@ -764,6 +765,15 @@ where
                                 ..
                             })) => {
                                 log::debug!(target: "wire", "Received `open` command for stream {stream} from {nid}");
+                                // Streams with our own initiator bit are allocated by us (`Streams::open`),
+                                // and only git streams are ever opened explicitly.
+                                if stream.link() == *link
+                                    || stream.kind() != Ok(frame::StreamKind::Git)
+                                {
+                                    log::warn!(target: "wire", "Peer {nid} attempted to open invalid stream {stream}");
+                                    continue;
+                                }
+
                                 metrics.streams_opened += 1;
                                 metrics.received_fetch_requests += 1;
                                 let reader_limit = self.service.config().limits.fetch_pack_receive;
